@@ -247,6 +247,14 @@ pub fn judge(c: &Case, cx: &mut Cx) -> Verdict {
             }
             let Some(want) = tzf.offset_at(t) else { continue };
             let r = catch(|| {
+                // the offset is a function of (zone file, instant): another zone resolved at the very
+                // same pinned instant directly before must not leak into the answer
+                astrolabe::verif::set_localtime(Some(Ok(other_zone_bytes())));
+                astrolabe::verif::set_now(Some(DateTime::from_timestamp(t)));
+                let before = Offset::Local.resolve();
+                if before != 4_500 {
+                    panic!("fixed zone <+0115>-1:15 resolved at {} gives {}", t, before);
+                }
                 astrolabe::verif::set_localtime(Some(Ok(bytes.clone())));
                 // the clock also shows fractions of a second: the offset in force during the whole
                 // second `t` is the one at `t` (before 1970 too, where seconds count down)
